@@ -55,13 +55,49 @@ def run(ctx, chk):
                 if not okk:
                     chk.fail('C16.1', 'arm:value', 'write to 0xff46 arms source=%s offset=%s (expected value << 8, 0)'
                              % (fmt(vals['source']), fmt(vals['current_offset'])), file, None)
+    # whatever the state before the write (idle, or a transfer in progress at any offset): after a write to 0xff46 the
+    # transfer state is Some{value << 8, 0} - a write during a transfer restarts it
+    madt = facts['adts']['mem::MemoryAreas']
+    oi = [i for i, f_ in enumerate(madt['fields']) if f_['name'] == 'oam_dma']
+    n46 = 0
+    if oi and okk:
+        el = ('f', oi[0], 'oam_dma', madt['fields'][oi[0]]['ty'], 'mem::MemoryAreas')
+        want_src = O(64, 'shl', O(64, 'zext', bm.VALUE), C(64, 8))
+        for p in model.write_paths():
+            if p.get('status') != 'ok' or p['lo'] is None or not (p['lo'] <= 0xff46 <= p['hi']):
+                continue
+            if not p['env'].possible(bm.ADDR, 0xff46):
+                continue
+            n46 += 1
+            r46 = p['result']
+            try:
+                fin = model.ip.read(r46.state, ('O', 'areas'), (el,))
+            except absint.Abort:
+                fin = None
+            good = False
+            if fin is not None and fin[0] == 'agg' and fin[1][3] == 'Some' and fin[2] and fin[2][0][0] == 'agg':
+                names = [f_['name'] for f_ in facts['adts'][DMA]['fields']]
+                vals = dict(zip(names, fin[2][0][2]))
+                so = vals.get('source')
+                co = vals.get('current_offset')
+                good = (so is not None and T.is_int(so) and (so == want_src or equal_mod(so, want_src, p['env'], 64)) and
+                        co is not None and T.is_int(co) and p['env'].const_of(co) == 0)
+            if not good:
+                okk = False
+                chk.fail('C16.1', 'arm:restart', 'after a write to 0xff46 the transfer state is %s on some path (expected '
+                         'Some{value << 8, 0} whatever the state before: a write during a transfer restarts it)'
+                         % (fmt(fin)[:160] if fin is not None else 'not readable'), file, None)
+                break
+        if not n46:
+            chk.error('C16.1: no bus write path for address 0xff46 found')
     if okk:
-        chk.ok('C16.1', 'arm', sample={'write 0xff46': 'oam_dma := Some{source: value << 8, current_offset: 0}'})
+        chk.ok('C16.1', 'arm', sample={'write 0xff46': 'oam_dma := Some{source: value << 8, current_offset: 0}',
+                                       'paths at 0xff46, any prior state': n46})
     elif not arm:
         chk.fail('C16.1', 'arm', 'no bus write path arms an OAM DMA transfer', file, None)
     ws = prog.field_stores('mem::MemoryAreas', 'oam_dma')
     wfns = sorted(set(w[0] for w in ws))
-    allowed = {WB, MRC, 'mem::MemoryAreas::with_rom', 'mem::MemoryAreas::with_rom_file'}
+    allowed = families(prog, [WB, MRC, 'mem::MemoryAreas::with_rom', 'mem::MemoryAreas::with_rom_file'])
     if set(wfns) <= allowed:
         chk.ok('C16.1', 'writers', sample={'oam_dma writers': wfns})
     else:
